@@ -112,7 +112,7 @@ impl<'a> PrettyPrinter<'a> {
                 ctx,
                 resolve_dot_chain(node),
                 |node| node.kind() == SyntaxKind::FieldAccess,
-                |child| {
+                |_node, child| {
                     if child.kind() == SyntaxKind::Dot {
                         Some(self.arena.text("."))
                     } else {
@@ -136,8 +136,7 @@ impl<'a> PrettyPrinter<'a> {
     }
 
     pub(super) fn convert_binary_chain(&'a self, ctx: Context, binary: Binary<'a>) -> ArenaDoc<'a> {
-        let op = binary.op();
-        let prec = op.precedence();
+        let prec = binary.op().precedence();
         ChainStylist::new(self)
             .process_resolved(
                 ctx,
@@ -146,9 +145,15 @@ impl<'a> PrettyPrinter<'a> {
                     node.cast::<Binary>()
                         .is_some_and(|binary| binary.op().precedence() == prec)
                 },
-                |child| {
-                    if child.kind() == SyntaxKind::In && op == BinOp::NotIn {
-                        Some(self.arena.text(op.as_str()))
+                |node, child| {
+                    // `not in` consists of two tokens. Decide it by the operand itself,
+                    // as operators of the same precedence (`in`, `==`, ...) can be mixed in a chain.
+                    let is_not_in = || {
+                        node.cast::<Binary>()
+                            .is_some_and(|binary| binary.op() == BinOp::NotIn)
+                    };
+                    if child.kind() == SyntaxKind::In && is_not_in() {
+                        Some(self.arena.text(BinOp::NotIn.as_str()))
                     } else {
                         BinOp::from_kind(child.kind()).map(|op| self.arena.text(op.as_str()))
                     }
